@@ -58,7 +58,7 @@ func (f *fam) floatBody(origin, use, body string, fd map[string]float64, value f
 	if c.FloatData == nil {
 		c.FloatData = map[string]float64{}
 	}
-	c.Direct = &FloatClass{Finite: !math.IsNaN(value) && !math.IsInf(value, 0), NegZero: value == 0 && math.Signbit(value), Use: use}
+	c.Direct = &FloatClass{Kind: "float", Finite: !math.IsNaN(value) && !math.IsInf(value, 0), NegZero: value == 0 && math.Signbit(value), Use: use}
 	c.Note = fmt.Sprintf("value %s", strconv.FormatFloat(value, 'g', -1, 64))
 }
 
